@@ -102,6 +102,13 @@ func runC06(c *fw.Ctx) {
 		o.Beacon = beacontypes.NewParams(fee(), fee(), big(), bd, 3, 1<<20+7)
 		c.Count("huge_fee_parameter_sets", 1)
 	}
+	// look-alike fee denominations: the modules' fee denominations spelled in upper case are valid,
+	// DIFFERENT denominations which every account holds plenty of
+	for _, d := range []string{strings.ToUpper(wd), strings.ToUpper(bd)} {
+		if d != wd && d != bd && !containsStr(o.ExtraDenomsAll, d) {
+			o.ExtraDenomsAll = append(o.ExtraDenomsAll, d)
+		}
+	}
 	slots := func(lo, hi int) uint64 {
 		if hugeFees && r.Chance(50) {
 			return r.PickU64([]uint64{1<<19 + 1, 1 << 19, 1<<18 + 3, 1 << 14, 1<<6 + 1})
@@ -420,7 +427,27 @@ func runC06(c *fw.Ctx) {
 		var offered sdk.Coins
 		rel := ""
 		opLeaves := filterMsgs(leaves, func(m sdk.Msg) bool { return isWrkMsg(m) || isBeaconMsg(m) })
-		switch r.Weighted([]int{34, 6, 10, 10, 8, 8, 4, 4, 10, 6}) {
+		lookAlike := func(cs sdk.Coins) sdk.Coins {
+			out := sdk.NewCoins()
+			for _, cn := range cs {
+				out = out.Add(sdk.NewCoin(strings.ToUpper(cn.Denom), cn.Amount))
+			}
+			return out
+		}
+		switch r.Weighted([]int{34, 6, 10, 10, 8, 8, 4, 4, 10, 6, 3, 3}) {
+		case 10: // the exact amounts, in the look-alike denominations only
+			offered, rel = lookAlike(want), "look-alike-denom-only"
+			if len(want) == 0 {
+				rel = "exact"
+			}
+		case 11: // the exact amounts in the look-alike denominations next to a wrong amount in the real ones
+			offered, rel = lookAlike(want).Add(scaleCoins(want, 1, 2)...), "look-alike-denom+lower"
+			if r.Bool() {
+				offered, rel = lookAlike(want).Add(want.Add(pickCoinOf(want, r))...), "look-alike-denom+higher"
+			}
+			if offered.AmountOf(wd).Equal(want.AmountOf(wd)) && offered.AmountOf(bd).Equal(want.AmountOf(bd)) {
+				rel = "exact"
+			}
 		case 8: // everything but one operation's fee (any one)
 			offered, rel = want, "exact"
 			if len(opLeaves) > 1 {
@@ -694,4 +721,13 @@ func filterMsgs(ms []sdk.Msg, f func(sdk.Msg) bool) []sdk.Msg {
 		}
 	}
 	return out
+}
+
+func containsStr(xs []string, x string) bool {
+	for _, y := range xs {
+		if y == x {
+			return true
+		}
+	}
+	return false
 }
